@@ -11,7 +11,7 @@ ASSUMPTIONS = ["handler-level theorems (every CA state, every claim); uniqueness
 
 
 def correspondence(ctx):
-    return genca.correspondence(ctx, 400 if ctx.quick else 15000, 4)
+    return genca.correspondence(ctx, ctx.n(400, 15000), 4)
 
 
 def claim_case(rng):
@@ -92,7 +92,7 @@ def claim_case(rng):
 
 def oracle(ctx, full):
     rng = random.Random(ctx.seed * 7907 + 4)
-    n = 120 if (ctx.quick and not full) else 5000
+    n = ctx.n(120, 5000, full)
     findings, evals, distinct, samples = [], 0, set(), []
     for _ in range(n):
         bad, desc = claim_case(random.Random(rng.getrandbits(48)))
